@@ -15,7 +15,11 @@ entry of `trace (init srv) ops`.
 
 Three statements of the property are **false** of the faithful model, i.e. of the pinned tree; for each the full
 statement is kept (in a comment), the strongest true version is proved as `…_partial`, the negation is proved from a
-concrete witness as `…_false`, and the witness is replayed on the real code by `harness/props/c04.py`:
+concrete witness as `…_false`, and the witness is replayed on the real code by `harness/props/c04.py`.  The witnesses
+that rest on the crash of the generated table's (FORCE_RELEASE, unlocked) cell live in `Props/C04Pinned.lean`, which
+the check builds exactly when the translator sees that cell crash; everything in this file is proved for both
+behaviours of the cell (`force_unlocked_dichotomy`), and `gen_eq_spec_of_fix` / `lock_requests_total_of_fix` show
+that this one cell is the only obstacle to the full statements:
 
 * `gen_eq_spec` / `lock_requests_total`: FORCE_RELEASE of an *unlocked* object raises `UnboundLocalError` in the
   worker thread (`return_token` is never assigned) — the object is dead, every later request hangs;
@@ -46,13 +50,13 @@ def sameNameOps : List Op :=
 
 /-! ## 1. The generated lock table equals the reference
 
-FULL STATEMENT (false on the pinned tree, see `gen_eq_spec_false`):
+FULL STATEMENT (false on the pinned tree, see `gen_eq_spec_false` in `Props/C04Pinned.lean`):
 
     theorem gen_eq_spec (srv owner a req) (hi : issuable a req) :
         lockStep srv owner a req = .ok (lockSpec srv owner a req)
 
 i.e. every request a proxy can issue is answered as the reference lock answers it — in particular no cell crashes.
-`gen_eq_spec_partial` excludes exactly the cell (FORCE_RELEASE, unlocked). -/
+`gen_eq_spec_partial` excludes exactly the cell (FORCE_RELEASE, unlocked); `Props/C04Pinned.lean` has the negation. -/
 
 /-- generated = reference for every action, every owner, every request token (all token values, not only the
 finite abstraction), except FORCE_RELEASE of an unlocked object -/
@@ -64,19 +68,14 @@ theorem gen_eq_spec_partial (srv : String) (owner : Option Token) (a : Act) (req
 example : lockStep "srv" (some ⟨"cli", "$lock_1"⟩) .acquire (some ⟨"gui", "$lock_1"⟩)
     = .ok (some ⟨"cli", "$lock_1"⟩, some (deniedTok "srv")) := by rfl
 
-/-- negation witness of the full statement: FORCE_RELEASE on an unlocked object does not answer -/
-theorem gen_eq_spec_false :
-    ¬ (∀ (srv : String) (owner : Option Token) (a : Act) (req : Option Token), issuable a req →
-        lockStep srv owner a req = .ok (lockSpec srv owner a req)) := by
-  intro h
-  have := h "srv" none .forceRelease none (by simp [issuable])
-  rw [lockStep_force_unlocked] at this
-  cases this
-
-/-- what the pinned tree does in that cell: `UnboundLocalError` escapes the handler (and `_RpcThread.run`) -/
-theorem force_unlocked_crashes (srv : String) (req : Option Token) :
-    lockStep srv none .forceRelease req = .error .unboundLocalError :=
-  lockStep_force_unlocked srv req
+/-- the defect is the *only* obstacle: as soon as that one cell answers (`ForceUnlockedAnswers`, which the generated
+table of a repaired tree satisfies by `force_unlocked_dichotomy`), the full statement holds -/
+theorem gen_eq_spec_of_fix (ha : ForceUnlockedAnswers) (srv : String) (owner : Option Token) (a : Act)
+    (req : Option Token) (hi : issuable a req) : lockStep srv owner a req = .ok (lockSpec srv owner a req) := by
+  by_cases hf : a = .forceRelease ∧ owner = none
+  · obtain ⟨rfl, rfl⟩ := hf
+    rw [ha]; rfl
+  · exact lockStep_spec srv owner a req hi hf
 
 /-- on the finite abstraction: no *other* cell a proxy can reach crashes (`decide`-style case split over the
 generated table) -/
@@ -400,7 +399,7 @@ example : step wLocked (.isLocked 1) = (wLocked, .bool true) ∧ step wFree (.is
 
 /-! ## 6. Lock requests are total
 
-FULL STATEMENT (false on the pinned tree, see `lock_requests_total_false`):
+FULL STATEMENT (false on the pinned tree, see `lock_requests_total_false` in `Props/C04Pinned.lean`):
 
     theorem lock_requests_total (halive : s.dead = none) (hop : op.isLockOp = true) :
         (step s op).1.dead = none ∧ (step s op).2 ≠ .hang -/
@@ -414,22 +413,11 @@ theorem lock_requests_total_partial {s : Sys} {op : Op} (halive : s.dead = none)
 
 example : wLocked.dead = none ∧ (Op.forceUnlock 1).isLockOp = true ∧ wLocked.owner ≠ none := by decide
 
-/-- negation witness -/
-theorem lock_requests_total_false :
-    ¬ (∀ (s : Sys) (op : Op), s.dead = none → op.isLockOp = true →
-        (step s op).1.dead = none ∧ (step s op).2 ≠ .hang) := by
-  intro h
-  have := h wFree (.forceUnlock 0) (by decide) (by decide)
-  revert this
-  decide
-
-/-- the failing history as the implementation shows it: the force-unlock is never answered and neither is anything
-after it -/
-theorem force_unlock_unlocked_disables_object :
-    (run (init "srv") [.newCtx "cli", .newProxy 1, .forceUnlock 0, .isLocked 0, .lock 0 none, .call 0 false]).2
-      = [.idx 1, .idx 0, .hang, .hang, .hang, .hang] ∧
-    (exec (init "srv") [.newCtx "cli", .newProxy 1, .forceUnlock 0]).dead = some .unboundLocalError := by
-  decide
+/-- the defect is the only obstacle: with the one cell repaired the full statement `lock_requests_total` holds (for
+every operation, not only lock requests) -/
+theorem lock_requests_total_of_fix (ha : ForceUnlockedAnswers) {s : Sys} {op : Op} (halive : s.dead = none) :
+    (step s op).1.dead = none ∧ (step s op).2 ≠ .hang :=
+  step_total_fixed ha halive
 
 /-- once the worker is dead it stays dead -/
 theorem dead_is_forever {s : Sys} (op : Op) (hd : s.dead ≠ none) : (step s op).1.dead = s.dead := by
